@@ -224,6 +224,8 @@ def gen_cases(tier, seed):
         keys.append({"kind": "single", "base": b, "pfs": "rot4" if tier == "quick" else "all"})
     for b in range(nb):
         keys.append({"kind": "reject", "base": b})
+    for b in range(0, nb, 1 if tier != "quick" else 5):
+        keys.append({"kind": "resave", "base": b})
     plan = [(2, 1), (3, 5), (4, 23)] if tier == "quick" else [(2, 1), (3, 1), (4, 3), (5, 71), (6, 8), (7, 8), (8, 8)]
     for k, step in plan:
         ns = len(pf_sets(k))
@@ -779,8 +781,79 @@ def run_seq(key):
     return cx.finish(sample)
 
 
+RESAVE_EDITS = ["untouched", "replace_last", "replace_first", "reverse", "roll"]
+
+
+def run_resave(key):
+    """A mineral that was LOADED from an archive, whose history is then changed without
+    changing the number of snapshots (list entries rebound, not written in place), saved again
+    and read back: what comes back is what was saved (seed C17g: a copy-avoiding save path
+    that writes the buffer the loaded snapshots are views of)."""
+    res = empty_result()
+    p = P()
+    d = casedir(key)
+    b = key["base"]
+    ph, fb, rg, n, s = POOL[b]
+    src = os.path.join(d, "src.npz")
+    dst = os.path.join(d, "dst.npz")
+    pf_src = [None, "a", 7][b % 3]
+    build(b).save(src, postfix=pf_src)
+    fr2, ori2 = contents((b + 5) % len(POOL) if POOL[(b + 5) % len(POOL)][3] == n else b)
+    obs = []
+    for via in ("from_file", "load"):
+        for edit in RESAVE_EDITS:
+            if s == 1 and edit in ("reverse", "replace_first"):
+                continue
+            if via == "from_file":
+                m = p["Mineral"].from_file(src, postfix=pf_src)
+            else:
+                m = target(n, s, ref_of(b), 0.5)
+                m.load(src, postfix=pf_src)
+            res["n"] += 3
+            res["trans"] += 1
+            newf = np.full(n, 1.0 / n) + 0.001 * np.arange(n)
+            newo = np.arange(9.0 * n).reshape(n, 3, 3) / (9.0 * n) - 0.25
+            if edit == "replace_last":
+                m.fractions[-1], m.orientations[-1] = newf, newo
+            elif edit == "replace_first":
+                m.fractions[0], m.orientations[0] = newf, newo
+            elif edit == "reverse":
+                m.fractions, m.orientations = m.fractions[::-1], m.orientations[::-1]
+            elif edit == "roll":
+                m.fractions, m.orientations = m.fractions[1:] + [newf], m.orientations[1:] + [newo]
+            want_f = [np.array(x) for x in m.fractions]
+            want_o = [np.array(x) for x in m.orientations]
+            pf_dst = f"{via}_{edit}"
+            res["clauses"]["resave_roundtrip"] = res["clauses"].get("resave_roundtrip", 0) + 1
+            k = dict(key, via=via, edit=edit)
+            try:
+                m.save(dst, postfix=pf_dst)
+                back = p["Mineral"].from_file(dst, postfix=pf_dst)
+                ok = (
+                    len(back.fractions) == len(want_f)
+                    and all(np.asarray(a).shape == c.shape and np.asarray(a, float).tobytes() == c.tobytes() for a, c in zip(back.fractions, want_f))
+                    and all(np.asarray(a).shape == c.shape and np.asarray(a, float).tobytes() == c.tobytes() for a, c in zip(back.orientations, want_o))
+                )
+                if not ok:
+                    dev = max(float(np.nanmax(np.abs(np.asarray(a) - c))) for a, c in zip(back.orientations, want_o)) if len(back.orientations) == len(want_o) else None
+                    res["viol"].append({"clause": "resave_roundtrip", "key": k, "detail": {"max_abs_diff_orientations": dev, "snapshots_back": len(back.fractions), "snapshots_saved": len(want_f)}})
+                obs.append(digest(*[np.asarray(x) for x in back.orientations]))
+            except Exception as e:
+                res["viol"].append({"clause": "resave_roundtrip", "key": dict(k, exc=type(e).__name__), "detail": {"exception": repr(e)[:200]}})
+            res["states"] += 1
+            if edit != "untouched":
+                res["nontrivial"].append(digest(key, via, edit))
+    shutil.rmtree(d, ignore_errors=True)
+    res["outcomes"] += obs[:10]
+    res["obs"] = digest(*obs)
+    res["sample"] = {"case": key, "edits": RESAVE_EDITS}
+    return res
+
+
 def run_case(key):
     P()
+    if key["kind"] == "resave":
+        return run_resave(key)
     if key["kind"] == "single":
         return run_single(key)
     if key["kind"] == "reject":
